@@ -65,16 +65,37 @@ def observe(fn):
 
 # ------------------------------------------------------------------ alphabet
 def german_accounts():
-    """For methods 16, 02, 25: an account per (remainder 0 / 1 / other); computed in a child."""
+    """For methods 16, 02, 25: accounts by remainder class (0 / 1 / other); for remainder 1 both an
+    account whose verdict hinges on the remainder-1 special rule and one where it does not, and for
+    'other' an accepted and a rejected one.  Computed with solo runs in a forked child."""
     from . import c14
     out = {}
     for m in ("16", "02", "25"):
-        menu = c14.method_menu(m)
-        pick = {}
-        for (rc, acc), a in sorted(menu.items(), key=str):
-            pick.setdefault(str(rc), a)
+        alg = lib.checksum.algorithms["DE:" + m]
+        pick: dict = {}
+        cands = [f"{n:010d}" for n in range(6000)] + [f"{n * 7919 % 10 ** 10:010d}" for n in range(1, 3000)]
+        for a in cands:
+            k, v = lib.outcome(alg.validate, [a], "")
+            r = getattr(alg, "remainder", None)
+            acc = (k, v) == ("ok", True)
+            if r == 0:
+                key = "0"
+            elif r == 1:
+                special = (a[8] == a[9] and a[9] != "0") if m == "16" else (a[1] in "89") if m == "25" else True
+                key = "1s" if special else "1p"
+            else:
+                key = "xa" if acc else "xr"
+            pick.setdefault(key, a)
+            if len(pick) == 5:
+                break
         out[m] = pick
         out[m + "_bank"] = c14.bank_for_method(m)
+    # a bank code whose first registry entry is not the primary one (several entries, names differ)
+    for (cc, code), es in sorted(lookup.by_key().items()):
+        if cc == "DE" and len(es) > 1 and not es[0].get("primary") and any(e.get("primary") for e in es) \
+                and len({e["name"] for e in es} | {e["short_name"] for e in es}) > 2:
+            out["nonprimary_first"] = code
+            break
     return out
 
 
@@ -140,6 +161,13 @@ def build_alphabet(ga: dict, tier: str = "thorough"):
     add("iban-bic", lambda: I(VALID).bic, True)
     add("iban-bank", lambda: I(VALID).bank, True)
     add("iban-bank_name", lambda: I("PL61109010140000071219812874").bank_name)
+    np = ga.get("nonprimary_first")
+    if np:
+        text = "DE" + ri.check_digits("DE", np + "0000000000") + np + "0000000000"
+        add("np-candidates", (lambda: B.candidates_from_bank_code("DE", np)), True)
+        add("np-from_bank_code", (lambda: B.from_bank_code("DE", np)))
+        add("np-iban-bank", (lambda: (I(text).bank_name, I(text).bank_short_name)), True)
+        add("np-iban-bic", (lambda: I(text).bic))
     add("copy-iban", lambda: copy.copy(I(VALID)))
     add("deepcopy-iban", lambda: copy.deepcopy(I(VALID)), True)
     add("pickle-bic", lambda: pickle.loads(pickle.dumps(B("GENODEM1GLS"))))
